@@ -158,6 +158,12 @@ func Analyze(fn *ssa.Function, root *RootInfo) []Site {
 			s := Site{Fn: fn, Ins: ins, Slice: sl, Need: need, Have: have, What: what, Class: "SAFE", Root: chainOf(sl).root}
 			if have < need {
 				fi.classify(&s, b)
+				if s.Class == "DEF" {
+					slv, nd, blk := sl, need, b
+					if fi.correlatedRelevant(blk, func() bool { return fi.minLen(slv, blk, map[ssa.Value]bool{}) >= nd }) {
+						s.Class, s.Why = "UNK-corr", "a length test that would cover this access holds on some of the paths that reach it"
+					}
+				}
 			}
 			sites = append(sites, s)
 		}
@@ -470,20 +476,25 @@ func (fi *fnInfo) symSite(ins ssa.Instruction, b *ssa.BasicBlock) (Site, bool) {
 	if bf == nil {
 		return s, true
 	}
-	vk, _ := fi.intKey(sl, b)
-	best := -1 << 30
-	for _, f := range bf.syms {
-		if f.s != sl && f.k != vk {
-			continue
+	bestOf := func() int {
+		bfx := fi.facts[b]
+		vk, _ := fi.intKey(sl, b)
+		best := -1 << 30
+		for _, f := range bfx.syms {
+			if f.s != sl && f.k != vk {
+				continue
+			}
+			fb, fc, ok := linBase(f.v, 0)
+			if !ok || fb != base {
+				continue
+			}
+			if fc+f.adj > best {
+				best = fc + f.adj
+			}
 		}
-		fb, fc, ok := linBase(f.v, 0)
-		if !ok || fb != base {
-			continue
-		}
-		if fc+f.adj > best {
-			best = fc + f.adj
-		}
+		return best
 	}
+	best := bestOf()
 	s.Have = best
 	if best >= k {
 		s.Class, s.Why = "SAFE", ""
@@ -496,7 +507,10 @@ func (fi *fnInfo) symSite(ins ssa.Instruction, b *ssa.BasicBlock) (Site, bool) {
 	// a guard on the same base exists but is too weak: definite iff knowledge is complete
 	probe := Site{Fn: fi.fn, Slice: sl, Need: 1 << 30}
 	fi.classify(&probe, b)
-	if probe.Class == "DEF" {
+	if probe.Class == "DEF" && fi.correlatedRelevant(b, func() bool { return bestOf() >= k }) {
+		s.Class = "UNK-sym"
+		s.Why = "a length test on the same offset that would cover this access holds on some of the paths that reach it"
+	} else if probe.Class == "DEF" {
 		s.Class = "DEF"
 		s.Why = fmt.Sprintf("the dominating guard establishes len >= offset%+d but the access needs offset%+d", best, k)
 		s.Guards = probe.Guards
@@ -521,11 +535,8 @@ func untrackedLoad(v ssa.Value, depth int) bool {
 	case *ssa.BinOp:
 		return untrackedLoad(x.X, depth+1) || untrackedLoad(x.Y, depth+1)
 	case *ssa.Phi:
-		for _, e := range x.Edges {
-			if e != ssa.Value(x) && untrackedLoad(e, depth+1) {
-				return true
-			}
-		}
+		// a register: every condition on it names it, whatever its inputs are
+		return false
 	}
 	return false
 }
@@ -1286,4 +1297,70 @@ func precedingStoreInBlock(v ssa.Value) (ssa.Value, bool) {
 		}
 	}
 	return nil, false
+}
+
+// correlatedRelevant: some branch condition of the function that does not
+// dominate block b (its outcome is known only on some of the paths reaching
+// b) would, if it held, make recheck() succeed.  A site that is unguarded
+// only because such a test is path-correlated with the conditions leading to
+// it is not a definite finding.
+func (fi *fnInfo) correlatedRelevant(b *ssa.BasicBlock, recheck func() bool) bool {
+	bf := fi.facts[b]
+	if bf == nil {
+		return false
+	}
+	reaches := func(from, to *ssa.BasicBlock) bool {
+		seen := map[*ssa.BasicBlock]bool{}
+		var dfs func(x *ssa.BasicBlock) bool
+		dfs = func(x *ssa.BasicBlock) bool {
+			if x == to {
+				return true
+			}
+			if seen[x] {
+				return false
+			}
+			seen[x] = true
+			for _, s := range x.Succs {
+				if dfs(s) {
+					return true
+				}
+			}
+			return false
+		}
+		return dfs(from)
+	}
+	for _, p := range fi.fn.Blocks {
+		if len(p.Instrs) == 0 || len(p.Succs) != 2 || p.Succs[0] == p.Succs[1] {
+			continue
+		}
+		iff, ok := p.Instrs[len(p.Instrs)-1].(*ssa.If)
+		if !ok {
+			continue
+		}
+		for i, t := range p.Succs {
+			if len(t.Preds) == 1 && (t == b || t.Dominates(b)) {
+				continue // already among the dominating facts
+			}
+			if !reaches(t, b) {
+				continue
+			}
+			tmp := &blockFacts{ver: bf.ver}
+			saveFI, saveB := curFI, curBlock
+			curFI, curBlock = fi, p
+			condFacts(iff.Cond, i == 0, tmp)
+			curFI, curBlock = saveFI, saveB
+			if len(tmp.lens) == 0 && len(tmp.syms) == 0 {
+				continue
+			}
+			saveL, saveS := bf.lens, bf.syms
+			bf.lens = append(append([]lenFact{}, bf.lens...), tmp.lens...)
+			bf.syms = append(append([]symLen{}, bf.syms...), tmp.syms...)
+			ok2 := recheck()
+			bf.lens, bf.syms = saveL, saveS
+			if ok2 {
+				return true
+			}
+		}
+	}
+	return false
 }
